@@ -477,6 +477,12 @@ let witness_hdrs () : hcase list =
 let hdr_cases ~seed ~n ~(raw : bool) (k : hcase -> unit) =
   let r = mk_rng seed in
   if raw then List.iter k (witness_hdrs ());
+  (* length 0: an omitted / zero fde_count means "no table" *)
+  (let ec = { eh = true; be = false; asz = 8; bsec = None; btext = None; bdata = None } in
+   List.iter (fun hb ->
+     k { hbe = false; hasz = 8; hb = (None, None, None); hbytes = hb; ec; ebytes = [0; 0; 0; 0]; wf = false; addrs = [Z.of_int 5] })
+     [ [1; 0x03; 0x03; 0x03; 0; 0x10; 0; 0; 0; 0; 0; 0]; [1; 0x03; 0xff; 0x03; 0; 0x10; 0; 0; 1; 0; 0; 0];
+       [1; 0x03; 0x03; 0xff; 0; 0x10; 0; 0; 1; 0; 0; 0]; [1; 0x03; 0x03; 0x03; 0; 0x10; 0; 0; 0; 0; 0; 0; 9; 9; 9; 9; 9; 9; 9; 9] ]);
   (* table lengths 1,2,3 and many, always *)
   List.iter (fun nfde ->
     for _ = 1 to 6 do
